@@ -213,6 +213,33 @@ func C17(c *fw.Ctx) {
 			}
 		}
 	}
+	// ঘাত(a, b) must be the very double a ** b is: bases x whole and fractional exponents
+	bases := []float64{10, 2.5, 0.1, 3, 1.5, 7, 0.3, 2, 0.5, 1e10, 1e-10, 123456.789, -10, -2.5, -0.1, 1.0000000001, 0.9999999999, 1e154, 1e-154, 17, 1.1}
+	var exps []float64
+	for e := -12; e <= 12; e++ {
+		exps = append(exps, float64(e))
+	}
+	exps = append(exps, -1024, -1023, -512, -100, -64, -33, 33, 64, 100, 512, 1023, 1024, 1025, 0.5, -0.5, 1.0/3, 2.5, -2.5, 1e-3, 50.5)
+	c.Bound("pow_pairs", len(bases)*len(exps))
+	for _, a := range bases {
+		for _, b := range exps {
+			if !c.Mine() {
+				continue
+			}
+			p1 := model.Render(parenAll([]*model.N{model.Print(model.CallN(model.BiPow, lit(a), lit(b))), model.Print(model.Bin("==", model.CallN(model.BiPow, lit(a), lit(b)), model.Bin("**", lit(a), lit(b))))}))
+			p2 := model.Render(parenAll([]*model.N{model.Print(model.Bin("**", lit(a), lit(b))), model.Print(model.Bin("==", model.Bin("**", lit(a), lit(b)), model.Bin("**", lit(a), lit(b))))}))
+			o1, o2 := h.RunFile(p1, h.Opts{}), h.RunFile(p2, h.Opts{})
+			c.Eval(p1+p2, true)
+			if abnormal(c, o1, "file", p1, fw.Replay{CLI: true}) || abnormal(c, o2, "file", p2, fw.Replay{CLI: true}) {
+				continue
+			}
+			if o1.Stdout != o2.Stdout || o1.Status != o2.Status {
+				c.Violate(fw.Replay{Sig: "C17|pow-vs-operator", What: model.BiPow + "(a,b) must be identical to a ** b", Mode: "file", Program: p1, Related: []string{p2}, CLI: true,
+					Expected: o2.Stdout, Observed: o1.Stdout, InStdout: o1.Stdout, InStderr: o1.Stderr, InStatus: o1.Status})
+			}
+			builtinCase(c, model.BiPow, []*model.N{lit(a), lit(b)}, "numeric|pow", true, "", nil, 0, 0)
+		}
+	}
 	// min / max: all permutations of small lists, both call forms
 	for _, pool := range [][]float64{{3, -1, 7, 0.5, 3}, {-3, -1, -7, -0.5, -1}, {0, 1e308, -1e308, 1e-300}} {
 		for n := 1; n <= 4; n++ {
